@@ -14,15 +14,7 @@ mod spec {
 }
 use spec::*;
 use crate::transmission::interest::Provider as _;
-use s2n_quic_core::{
-    endpoint,
-    event::{self, IntoEvent},
-    frame::{ack_elicitation::AckElicitation, FrameTrait},
-    packet::number::PacketNumberSpace,
-    time::Timestamp,
-};
-
-const MAXV: u64 = s2n_quic_core::varint::MAX_VARINT_VALUE;
+include!("_data_sender_mocks.rs");
 
 /// `StreamError::stream_reset()` records `core::panic::Location::caller()`; Kani does not support the
 /// `caller_location` intrinsic ("caller_location is not currently supported by Kani").  The harnesses
@@ -34,153 +26,6 @@ where
 {
     const HERE: &core::panic::Location<'static> = core::panic::Location::caller();
     HERE
-}
-
-fn pn(v: u64) -> PacketNumber {
-    PacketNumberSpace::ApplicationData.new_packet_number(VarInt::new(v).unwrap())
-}
-
-// ---- recording flow controller ------------------------------------------------------------------
-#[derive(Debug, Default)]
-struct Fc {
-    window: VarInt,
-    blocked: bool,
-    finished: bool,
-    cleared: u8,
-}
-impl OutgoingDataFlowController for Fc {
-    fn acquire_flow_control_window(&mut self, _end_offset: VarInt) -> VarInt {
-        self.window
-    }
-    fn is_blocked(&self) -> bool {
-        self.blocked
-    }
-    fn clear_blocked(&mut self) {
-        self.blocked = false;
-        self.cleared += 1;
-    }
-    fn finish(&mut self) {
-        self.finished = true;
-    }
-}
-
-// ---- recording frame writer (FrameWriter: Default, `&self` methods => the record is a static) ------
-#[derive(Clone, Copy)]
-struct Rec {
-    chunks: u8,
-    fins: u8,
-    last_offset: u64,
-    last_len: u64,
-    last_chunk_is_fin: bool,
-    fin_offset: u64,
-}
-static mut REC: Rec = Rec { chunks: 0, fins: 0, last_offset: 0, last_len: 0, last_chunk_is_fin: false, fin_offset: 0 };
-fn rec() -> Rec {
-    unsafe { REC }
-}
-
-#[derive(Debug, Default)]
-struct Fw;
-impl FrameWriter for Fw {
-    type Context = ();
-    const MIN_WRITE_SIZE: usize = 1;
-    fn write_chunk<W: WriteContext>(&self, offset: VarInt, payload: &mut View, _c: (), _context: &mut W) -> Result<(), FitError> {
-        unsafe {
-            REC.chunks += 1;
-            REC.last_offset = offset.as_u64();
-            REC.last_len = payload.len().as_u64();
-            REC.last_chunk_is_fin = payload.is_fin();
-        }
-        Ok(())
-    }
-    fn write_fin<W: WriteContext>(&self, offset: VarInt, _c: (), _context: &mut W) -> Result<(), FitError> {
-        unsafe {
-            REC.fins += 1;
-            REC.fin_offset = offset.as_u64();
-        }
-        Ok(())
-    }
-}
-use s2n_quic_core::frame::FitError;
-
-/// CRYPTO-like writer: no FIN on the wire
-#[derive(Debug, Default)]
-struct FwNoFin;
-impl FrameWriter for FwNoFin {
-    type Context = ();
-    const WRITES_FIN: bool = false;
-    fn write_chunk<W: WriteContext>(&self, _o: VarInt, _p: &mut View, _c: (), _context: &mut W) -> Result<(), FitError> {
-        Ok(())
-    }
-    fn write_fin<W: WriteContext>(&self, _o: VarInt, _c: (), _context: &mut W) -> Result<(), FitError> {
-        Ok(())
-    }
-}
-
-// ---- stack-only write context -----------------------------------------------------------------------
-struct Ctx {
-    cap: usize,
-    constraint: transmission::Constraint,
-    pn: u64,
-}
-impl transmission::Writer for Ctx {
-    fn current_time(&self) -> Timestamp {
-        s2n_quic_core::time::clock::testing::now()
-    }
-    fn transmission_constraint(&self) -> transmission::Constraint {
-        self.constraint
-    }
-    fn transmission_mode(&self) -> transmission::Mode {
-        transmission::Mode::Normal
-    }
-    fn remaining_capacity(&self) -> usize {
-        self.cap
-    }
-    fn write_frame<Frame>(&mut self, _frame: &Frame) -> Option<PacketNumber>
-    where
-        Frame: s2n_codec::EncoderValue + FrameTrait,
-        for<'f> &'f Frame: IntoEvent<event::builder::Frame>,
-    {
-        None
-    }
-    fn write_fitted_frame<Frame>(&mut self, _frame: &Frame) -> PacketNumber
-    where
-        Frame: s2n_codec::EncoderValue + FrameTrait,
-        for<'f> &'f Frame: IntoEvent<event::builder::Frame>,
-    {
-        self.packet_number()
-    }
-    fn write_frame_forced<Frame>(&mut self, _frame: &Frame) -> Option<PacketNumber>
-    where
-        Frame: s2n_codec::EncoderValue + FrameTrait,
-        for<'f> &'f Frame: IntoEvent<event::builder::Frame>,
-    {
-        None
-    }
-    fn ack_elicitation(&self) -> AckElicitation {
-        AckElicitation::Eliciting
-    }
-    fn packet_number(&self) -> PacketNumber {
-        pn(self.pn)
-    }
-    fn local_endpoint_type(&self) -> endpoint::Type {
-        endpoint::Type::Server
-    }
-    fn header_len(&self) -> usize {
-        0
-    }
-    fn tag_len(&self) -> usize {
-        0
-    }
-}
-
-fn any_constraint() -> transmission::Constraint {
-    match kani::any::<u8>() % 4 {
-        0 => transmission::Constraint::None,
-        1 => transmission::Constraint::RetransmissionOnly,
-        2 => transmission::Constraint::CongestionLimited,
-        _ => transmission::Constraint::AmplificationLimited,
-    }
 }
 
 // ---- states -----------------------------------------------------------------------------------------
@@ -229,7 +74,7 @@ type Sender = DataSender<Fc, Fw>;
 /// transmission_offset); `Finished` / `Cancelled` have a finished flow controller (stop_sending /
 /// on_packet_ack establish it, asserted below)
 fn any_empty_sender(p: u64) -> Sender {
-    let mut s = Sender::new(Fc { window: VarInt::MAX, blocked: kani::any(), finished: false, cleared: 0 }, 1024);
+    let mut s = Sender::new(Fc { window: VarInt::MAX, blocked: kani::any(), finished: false, cleared: 0, last_end: None }, 1024);
     s.state = any_state(p);
     if matches!(s.state, State::Finished | State::Cancelled(_)) {
         s.transmissions.flow_controller.finished = true;
@@ -394,43 +239,25 @@ fn vq_c12_data_sender_fin_ack_and_loss() {
 #[kani::stub(core::panic::Location::caller, location_stub)]
 fn vq_c12_data_sender_stop_sending() {
     // sender without buffered data, any state
-    stop_sending_contract(false);
-}
-
-//@ harness props=C12 tier=thorough level=bounded timeout=1200 bound="1 buffered chunk of 2 bytes, 1 pending interval"
-//@ fn DataSender::stop_sending
-//@ fn DataSender::push
-#[kani::proof]
-#[kani::unwind(10)] // packet::number::Map::default() fills 8 slots in a loop
-#[kani::stub(core::panic::Location::caller, location_stub)]
-fn vq_c12_data_sender_stop_sending_with_data() {
-    // some enqueued, untransmitted data (only legal while Sending): measured > 300 s, hence thorough
-    stop_sending_contract(true);
-    kani::cover!(true, "reach:end_with_data");
-}
-
-fn stop_sending_contract(with_data: bool) {
     let p: u64 = kani::any();
     kani::assume(p <= MAXV);
-    let mut s = any_empty_sender(p);
-    if with_data {
-        kani::assume(s.state == State::Sending);
-        let b0 = snd(&s);
-        assert!(snd_push_pre(b0), "C12/data_sender.push/only_while_sending");
-        s.push(Bytes::from_static(&[0xAA, 0xBB]));
-        assert!(snd_push_post(b0, 2, snd(&s)), "C12/data_sender.push/spec_post");
-        assert!(s.total_enqueued_len().as_u64() == 2 && !s.is_empty(), "C12/data_sender.push/enqueues");
-        assert!(!s.pending.is_empty(), "C12/data_sender.push/pending_tracks_data");
-    }
+    let s = any_empty_sender(p);
+    let was_finished = state_code(s.state).0 == 2;
+    let f0 = data_frame(&s);
+    let s = stop_sending_contract(s);
+    assert!(!was_finished || (state_code(s.state).0 == 2 && data_frame(&s) == f0), "C12/data_sender.stop_sending/finished_is_unchanged");
+    kani::cover!(was_finished, "reach:finished");
+}
+
+fn stop_sending_contract(mut s: Sender) -> Sender {
     let old = state_code(s.state);
     let f0 = data_frame(&s);
     let a0 = snd(&s);
     s.stop_sending(StreamError::stream_reset(VarInt::from_u8(9).into()));
     assert!(snd_stop_post(a0, snd(&s)) && snd_inv(snd(&s)), "C12/data_sender.stop_sending/spec_post");
     let new = state_code(s.state);
-    if old.0 == 2 {
-        assert!(new == old && data_frame(&s) == f0, "C12/data_sender.stop_sending/finished_is_unchanged");
-    } else {
+    let _ = f0;
+    if old.0 != 2 {
         assert!(new.0 == 3, "C12/data_sender.stop_sending/becomes_cancelled");
         assert!(matches!(s.state(), State::Cancelled(StreamError::StreamReset { .. })), "C12/data_sender.stop_sending/keeps_the_error");
         // Cancelled => nothing left that could become a STREAM frame
@@ -442,9 +269,27 @@ fn stop_sending_contract(with_data: bool) {
         assert!(!s.has_transmission_interest(), "C12/data_sender.stop_sending/no_transmission_interest");
     }
     kani::cover!(old.0 == 0, "reach:sending");
-    kani::cover!(with_data || (old.0 == 1 && old.1 == 1), "reach:finishing_inflight");
-    kani::cover!(with_data || old.0 == 2, "reach:finished");
-    kani::cover!(with_data || old.0 == 3, "reach:already_cancelled");
+    s
+}
+
+//@ harness props=C12 tier=thorough level=bounded timeout=1200 bound="1 buffered chunk of 2 bytes, 1 pending interval"
+//@ fn DataSender::stop_sending
+//@ fn DataSender::push
+#[kani::proof]
+#[kani::unwind(10)] // packet::number::Map::default() fills 8 slots in a loop
+#[kani::stub(core::panic::Location::caller, location_stub)]
+fn vq_c12_data_sender_stop_sending_with_data() {
+    // some enqueued, untransmitted data (only legal while Sending): measured > 300 s, hence thorough
+    let mut s = Sender::new(Fc { window: VarInt::MAX, blocked: kani::any(), finished: false, cleared: 0, last_end: None }, 1024);
+    let b0 = snd(&s);
+    assert!(snd_push_pre(b0), "C12/data_sender.push/only_while_sending");
+    s.push(Bytes::from_static(&[0xAA, 0xBB]));
+    assert!(snd_push_post(b0, 2, snd(&s)), "C12/data_sender.push/spec_post");
+    assert!(s.total_enqueued_len().as_u64() == 2 && !s.is_empty(), "C12/data_sender.push/enqueues");
+    assert!(!s.pending.is_empty(), "C12/data_sender.push/pending_tracks_data");
+    let s = stop_sending_contract(s);
+    assert!(s.is_empty(), "C12/data_sender.stop_sending/data_dropped");
+    kani::cover!(true, "reach:end_with_data");
 }
 
 //@ harness props=C12 tier=quick level=bounded timeout=300 bound="no buffered data; FIN-only transmission"
@@ -505,7 +350,7 @@ fn vq_c12_data_sender_transmit_data_then_fin() {
     let q: u64 = kani::any();
     kani::assume(q <= MAXV);
     let window: u8 = kani::any();
-    let mut s = Sender::new(Fc { window: VarInt::from_u8(window), blocked: false, finished: false, cleared: 0 }, 1024);
+    let mut s = Sender::new(Fc { window: VarInt::from_u8(window), blocked: false, finished: false, cleared: 0, last_end: None }, 1024);
     s.push(Bytes::from_static(&[0xAA, 0xBB]));
     let finished: bool = kani::any();
     if finished {
@@ -513,7 +358,7 @@ fn vq_c12_data_sender_transmit_data_then_fin() {
     }
     let total = s.total_enqueued_len().as_u64();
     assert!(total == 2, "C12/data_sender.push/total_len_counts_bytes");
-    unsafe { REC.chunks = 0; REC.fins = 0; REC.fin_offset = u64::MAX; REC.last_chunk_is_fin = false; }
+    unsafe { REC.chunks = 0; REC.fins = 0; REC.fin_offset = u64::MAX; REC.last_chunk_is_fin = false; REC.trim = 0; }
     let cap: u8 = kani::any();
     let mut ctx = Ctx { cap: cap as usize, constraint: transmission::Constraint::None, pn: q };
     let a0 = snd(&s);
